@@ -8,6 +8,8 @@
 From Verif Require Import Base.Bytestr Back.BashLines Back.BashConv Sem.BashSem Sem.Words Sem.AppArgs.
 Open Scope N_scope.
 
+From Verif Require Import Facts.C18Facts.
+
 Theorem C18_argv_exact : forall e args,
   forallb arg_fine args = true -> argv_words e (map app_arg args) = Some (map (atom_text e) args).
 Proof. exact argv_exact. Qed.
@@ -16,7 +18,7 @@ Print Assumptions C18_argv_exact.
 Theorem C18_refuted : forall e,
   arg_words e (app_arg (ALit [])) = Some []
   /\ arg_words e (app_arg (ALit (bs "a;b"))) = None /\ arg_words e (app_arg (ALit (bs "*"))) = None.
-Proof. intro e. split; [exact (empty_argument_vanishes e)|exact (metacharacter_not_an_argument e)]. Qed.
+Proof. exact C18_refuted_proof. Qed.
 Print Assumptions C18_refuted.
 
 Example C18_sample :
